@@ -189,6 +189,25 @@ CHECKS = {
              'cryptography/hashlib only), key capture from send_newkeys '
              'arguments for the passive tap',
         design='3/C08'),
+    'C12': dict(
+        level='exploration',
+        technique='runtime monitoring against a scripted reference SFTP '
+                  'server (raw protocol, in-memory files) that reorders '
+                  'replies, serves short reads, injects per-block failures, '
+                  'size lies and early EOF; byte-comparison oracle; sparse '
+                  'and OpenSSH sftp legs against the real server',
+        text='get/put/copy and SFTPClientFile read/write over sizes around '
+             'block and request-count boundaries, block sizes 1..16384, '
+             '1..128 parallel requests, all reply orders of batches up to 8, '
+             'short-read splits down to one byte and SFTP versions 3-6: a '
+             'normal return implies destination == source; a served block '
+             'failure or a source ending before its announced size (non-'
+             'sparse) implies an exception; sparse layouts incl. trailing '
+             'holes are reproduced; OpenSSH sftp get/put compared by bytes.',
+        note='trusted: vf/sftpref.py reference server (no asyncssh SFTP '
+             'code); a server returning more than requested is outside the '
+             'fault model',
+        design='3/C12'),
     'C19': dict(
         level='exploration',
         technique='runtime monitoring: reference reader model over the sent '
